@@ -4171,11 +4171,20 @@ class State:
 
         match self.street.opening:
             case Opening.POSITION:
+
+                def signed_bet(i: int) -> int:
+                    # Heads-up, the two entries are posted by the opposite
+                    # seats (see ``get_effective_blind_or_straddle``).
+                    if self.player_count == 2:
+                        j = int(not i)
+                    else:
+                        j = i
+
+                    return self.bets[i] * sign(self.blinds_or_straddles[j])
+
                 max_bet_index = max(
                     self.player_indices,
-                    key=lambda i: (
-                        (self.bets[i] * sign(self.blinds_or_straddles[i]), i)
-                    ),
+                    key=lambda i: (signed_bet(i), i),
                 )
                 self.opener_index = (max_bet_index + 1) % self.player_count
             case Opening.LOW_CARD:
